@@ -82,7 +82,7 @@ class MappedText:
 # ------------------------------------------------------------------------------------------------
 def parse_vspec(path):
     spec = dict(unit=None, source=None, props_safety=[], props_internal=[], result='res', attrs=[],
-                requires=[], ensures=[], decreases=None, implextra=[], aftereach=[], regions=[], entry=None, loops={}, closures={}, ats=[],
+                requires=[], ensures=[], decreases=None, implextra=[], aftereach=[], regions=[], tail=None, tailbind=None, entry=None, loops={}, closures={}, ats=[],
                 subs=[], sigsubs=[], path=path, notes=[])
     cur = None
 
@@ -132,6 +132,12 @@ def parse_vspec(path):
         elif key == 'decreases':
             cur = dict(text=rest.strip())
             spec['decreases'] = cur
+        elif key == 'tailbind':
+            spec['tailbind'] = rest.strip()
+            cur = None
+        elif key == 'tail':
+            cur = dict(text=rest.strip())
+            spec['tail'] = cur
         elif key == 'entry':
             cur = dict(text=rest.strip())
             spec['entry'] = cur
@@ -200,6 +206,10 @@ GLOBAL_RULES = [
     ('R9', re.compile(r'let (\w+) = ([\w\.\s]+?)\s*\.iter\(\)\s*\.map\(\|(\w+)\| ([^\n]+?)\)\s*\.collect::<Result<Vec<_>, _>>\(\)\?;'),
      lambda m: 'let %s = { let mut __v = Vec::new(); for %s in %s.iter() { __v.push(%s?); } __v };' % (
          m.group(1), m.group(3), re.sub(r'\s+', '', m.group(2)), m.group(4))),
+    ('R17', re.compile(r'(?<!\(#\[verifier::truncate\] \()(?<![\w\)])\(?\b([A-Za-z_]\w*) as usize\b\)?'),
+     lambda m: '(#[verifier::truncate] (%s as usize))' % m.group(1)),
+    ('R20', re.compile(r'(\bcmp_int_float\([^()]*\)) == Some\(Ordering::Equal\)'),
+     lambda m: 'matches!(%s, Some(Ordering::Equal))' % m.group(1)),
     ('R6', re.compile(r'Value::Float\(-(\w+)\)'), lambda m: 'Value::Float(__fneg(%s))' % m.group(1)),
     ('R15', re.compile(r'Value::Float\((\w+) ([-+*/]) (\w+)\)'),
      lambda m: 'Value::Float(__f%s(%s, %s))' % ({'+': 'add', '-': 'sub', '*': 'mul', '/': 'div'}[m.group(2)], m.group(1), m.group(3))),
@@ -567,7 +577,18 @@ class Weaver:
         if spec['entry']:
             w.emit(spec['entry']['text'])
         body_start = w.lineno + 1
+        if spec['tailbind']:
+            # R19: `body`  ==>  `let r = { body }; <ghost tail>; r`   (a block evaluates to its tail expression)
+            w.emit('        let %s = {' % spec['tailbind'])
+            body_start = w.lineno + 1
+            log.append(('R19', 'body => let %s = { body }; <ghost>; %s' % (spec['tailbind'], spec['tailbind'])))
         w.emit(mt.text, file, mt.origin)
+        if spec['tailbind']:
+            w.emit('        };')
+        if spec['tail']:
+            w.emit(spec['tail']['text'])
+        if spec['tailbind']:
+            w.emit('        ' + spec['tailbind'])
         w.emit('    }')
         if impl_open:
             w.emit('}')
